@@ -3,7 +3,7 @@
    RECURSION_LIMIT is [recursion_limit] of Generated/PbConsts.v (regenerated from pilota/src/prost/mod.rs on
    every run); enter_recursion is a CHECKED decrement whose underflow is the outcome [OPanic SEnterRecursion],
    so "limit_reached is tested first" is proved, not assumed. *)
-From PVPb Require Import Wire Codec Msg Proofs.WireP Proofs.TotalP Proofs.DepthP Proofs.ShapeP.
+From PVPb Require Import Wire Codec Msg Proofs.WireP Proofs.TotalP Proofs.DepthP Proofs.ShapeP Proofs.DefaultP.
 Open Scope Z_scope.
 
 (* C10_total: for EVERY decoder entry point (the three varint paths, keys, length delimiters, <module>::merge
@@ -109,3 +109,35 @@ Theorem C10_len_before_copy_message : forall d sc i x tag ctx s, 0 <= ctx -> ove
   rejected_uncopied s (merge_field d sc i x tag LengthDelimited ctx s).
 Proof. exact merge_field_rejects. Qed.
 Print Assumptions C10_len_before_copy_message.
+
+(* ---- Default::default() (Message::decode starts from it).  schema_ok demands [required_acyclic]: no by-value cycle of
+   REQUIRED message fields.  Under it the fuel of the model's default_msg is never used up (every fuel above |sc| gives the
+   same value): the model's default is the derived Default, which terminates. *)
+Theorem C10_default_terminates : forall sc i d d', schema_ok sc = true -> (i < length sc)%nat ->
+  (length sc < d)%nat -> (length sc < d')%nat -> default_msg d sc i = default_msg d' sc i.
+Proof. exact default_terminates. Qed.
+Print Assumptions C10_default_terminates.
+
+(* REFUTED without it (finding F-10a, reproduced with the real pilota-build + rustc: `message A { required A a = 1; }` is
+   accepted, `A::decode(&[][..])` overflows the stack in the derived Default and the process aborts): the schema passes every
+   other clause of schema_ok and its default has no fixpoint -- one more level per unit of fuel.  Every C10 statement above is
+   about schemas that exclude this case. *)
+Theorem C10_required_cycle_refuted :
+  let sc := [[FSingular 1 (TMsg 0)]] in
+  forallb (msgdesc_ok sc) sc = true /\ required_acyclic sc = false /\ schema_ok sc = false /\
+  forall d, vdepth (default_msg d sc 0) = S d.
+Proof. exact required_cycle_refuted. Qed.
+Print Assumptions C10_required_cycle_refuted.
+
+(* "a value in the shape of its descriptor" does NOT include "strings are UTF-8" (finding F-10b, reproduced on every run):
+   the module selected for a declared `string` is faststr, whose merge is merge_one_copy + FastStr::from_bytes_unchecked; the
+   bytes ff fe decode to Ok there (and in a generated message), std String's module rejects them *)
+Theorem C10_faststr_accepts_invalid_utf8 :
+  scalar_module TYPE_STRING = Some MFastStr /\
+  utf8_valid [xff; xfe] = false /\
+  (exists s, merge_scalar MFastStr LengthDelimited (mkR [x02; xff; xfe] 0) = OOk (VB [xff; xfe]) s) /\
+  (exists s, merge_scalar MString LengthDelimited (mkR [x02; xff; xfe] 0) = OErr PUtf8 s) /\
+  (exists s, msg_decode [[FOptional 1 (TScalar TYPE_STRING)]] 0 (mkR [x0a; x02; xff; xfe] 0)
+             = OOk (VL NMsg [VL NSome [VB [xff; xfe]]]) s).
+Proof. exact faststr_accepts_invalid_utf8. Qed.
+Print Assumptions C10_faststr_accepts_invalid_utf8.
